@@ -225,6 +225,11 @@ func (p *Proc) declVar(ec *ectx, name *ast.Ident, v Val) {
 		addr := p.alloc(ec.st, "box_"+obj.Name())
 		ec.st.vars[obj] = addr
 		p.storeBoxed(ec, obj, addr, v)
+		if isBuilderType(obj.Type()) {
+			// a newly declared accumulator is empty (its zero value is ready to use)
+			h := p.heapGet(ec.st, "G:sbuf", ArrSort(SInt, SStr))
+			ec.st.assume(Eq(StrLen(Sel(h, addr)), IntLit(0)))
+		}
 		return
 	}
 	ec.st.vars[obj] = p.convert(ec, v, obj.Type())
